@@ -275,7 +275,16 @@ def handle (op : String) (j : Json) : Option (Except String Json) :=
     let res : Json := match IR.applyMods origOff func ir (some actual) total [m] with
       | .ok ir' => Json.mkObj [("ir", irJ ir')]
       | .error e => errJson e
-    .ok (Json.mkObj [("ao", ao), ("ids_below", Json.bool idsBelow), ("new_blocks", Json.bool newBlocks), ("minv", Json.bool minv), ("res", res)])
+    -- premises of the symbol-closure theorems (Props.C02 `no_symbol_is_left_on_a_block_that_left_the_module`)
+    let sinv := ir.symsOkB && ir.ordOkB
+    let patchOk := match m with
+      | .ins _ _ p => ir.patchOkB p
+      | .del _ _ _ => true
+    let sinvAfter : Json := match IR.applyMods origOff func ir (some actual) total [m] with
+      | .ok ir' => Json.bool (ir'.symsOkB && ir'.ordOkB)
+      | .error _ => Json.null
+    .ok (Json.mkObj [("ao", ao), ("ids_below", Json.bool idsBelow), ("new_blocks", Json.bool newBlocks), ("minv", Json.bool minv),
+      ("sinv", Json.bool sinv), ("patch_ok", Json.bool patchOk), ("sinv_after", sinvAfter), ("res", res)])
   | _ => none
 
 end Driver.IRJson
